@@ -17,6 +17,7 @@ LEVEL = "proof"
 COQ_FILES = ["Tie/C08_defs.v", "Tie/C08_tie.v", "Props/C08_props.v"]
 PROPS_FILES = ["C08_props.v"]
 TRUSTED_BASE = [
+    "vlib/symex.py (symbolic execution of the translated Python subset on the ast: the translator reads value / outcome trees, so local names, intermediates, helpers and the form of branches do not matter; its assumptions - pure expressions, opaque calls, no aliasing writes, try handlers not modelled - are listed in DESIGN.md 12.7; fail-closed)",
     "py2gallina unit 'stages': build_supervised_mri_transforms is regenerated on every run as a function from the truthiness of its parameters to a list of stages (one per constructor call, with the keys passed to it); the relative padding threshold of ComputeZeroPadding, the division of NormalizeModule and what CreateSamplingMask reads from the sample are regenerated as well; statements outside the fixed pattern make the translation fail closed",
     "coq/Model/C08.v (hand model): what each stage does to the sample, as a symbolic executor over terms; tied to the real transform classes by exact correspondence of the per-stage homogeneity degrees of every key (real Compose run stage by stage on x and 4x, compared bit-exactly)",
     "homogeneity contracts of the operations behind the terms (Proofs/C08.v, Section Sem: crop / rescale / pad / flips / coil compression are homogeneous, the padding threshold is relative, the mask generator reads only shapes, sensitivity maps are scale-free (C09), order statistics of the modulus and the reconstruction are absolutely homogeneous, safe_divide (c x) (c s) = safe_divide x s); validated by the same correspondence, not proved",
